@@ -20,3 +20,22 @@ pub fn vmax(a: usize, b: usize) -> (r: usize)
 {
     if a >= b { a } else { b }
 }
+
+// `arr[..n].iter().rposition(Option::is_some)` (rule R8rposition): last index below n holding a Some.  Verified helper.
+pub fn vrposition_some<T, const N: usize>(arr: &[Option<T>; N], n: usize) -> (r: Option<usize>)
+    requires n <= N,
+    ensures match r {
+        Some(p) => p < n && arr@[p as int] is Some && forall|j: int| p < j < n ==> arr@[j] is None,
+        None => forall|j: int| 0 <= j < n ==> arr@[j] is None,
+    },
+{
+    let mut i: usize = n;
+    while i > 0
+        invariant i <= n, n <= N, forall|j: int| i <= j < n ==> arr@[j] is None,
+        decreases i,
+    {
+        i -= 1;
+        if arr[i].is_some() { return Some(i); }
+    }
+    None
+}
